@@ -241,7 +241,24 @@ func runC17(c *Ctx) {
 			switch {
 			case s.Tok.String() == "++":
 				nIncr++
-				r.GuardSite("C17-D4", u, s, c.W.Parse("i < p1 && !(j < p2)"), "once per partition, after its slots are filled")
+				// inside the loop over the partitions, after (and outside) the loop that fills the slots — whichever form
+				// the loops have
+				var slotLoop ast.Node
+				for _, st := range u.Match(slot) {
+					u.InspectAll(func(n ast.Node) bool {
+						switch n.(type) {
+						case *ast.ForStmt, *ast.RangeStmt:
+							if n.Pos() <= st.Pos && st.Pos < n.End() {
+								slotLoop = n // innermost wins: visited last
+							}
+						}
+						return true
+					})
+				}
+				after := slotLoop != nil && s.Pos >= slotLoop.End()
+				inOuter := flow.Implies(u.SitePC(s), c.W.Parse("i < p1")).Holds
+				r.Check("C17-D4", u.Name+": the start slot advances once per partition, after its slots are filled", u.Pos(s.Pos), after && inOuter,
+					fmt.Sprintf("after the slot loop: %v; inside the partition loop: %v", after, inOuter))
 			case s.RHS != nil && u.C.Term(s.RHS) == "int(murmur3.Sum32([]byte(p0)))":
 			default:
 				other++
